@@ -64,20 +64,23 @@ CLAIMED = {
             "inversion, expected log-factor), diagonal measure / density / conditional vs the full-matrix classes, identity and "
             "identity-diagonal conditionals vs ConditionalGaussianPDF with M=I, b=0 for every operation and batch layout, NN-controlled "
             "conditional with fixed control vs ConditionalGaussianPDF(M(u), b(u)).", BASE_NOTE, "DESIGN §6-C15"),
-    "C16": ("Moment matching proved from first principles (kernel moments as Gaussian integrals of products, axiom G1): RBF feature model -- "
-            "unit-height read-out, condition_on_x, expected moments, cross terms, marginal (wf_pdf), conditional transformation (= Gaussian "
-            "conditional of the moment-matched joint) and the joint's mean / covariance blocks, R generic or 1; squared-exponential (LSEM) "
-            "model -- read-out, condition_on_x and all mean-level clauses; heteroscedastic exp and cosh-1 links -- E[link(h)], moments, "
-            "cross terms, marginal, conditional, joint blocks. NOT covered (stated in evidence): LSEM covariance-level clauses (two "
-            "successive Sherman-Morrison updates exceed the canonicalisation budget), step / rectified-linear moment matching (vmap over "
-            "truncated measures), precision / log-determinant of the moment-matched joint (inverse of a block matrix is opaque).",
-            BASE_NOTE + " G1, G2 assumed; positive definiteness of moment-matched covariances is a precondition.", "DESIGN §6-C16, §11"),
-    "C17": ("Decides clause (a) only: for the four links, condition_on_x(x) has mean Mx+b and covariance AA' + A_k diag(link(Wx+w0)) A_k' and "
-            "its precision / log-determinant ARE the inverse / log-determinant of that covariance in the square regime Da = Dy (rational "
-            "identities in the link value, Lean-checked det(A(1+D)A')); in the wide regime Da > Dy the same obligations fail with replayable "
-            "inputs and are recorded as open known finding KF-heteroscedastic-woodbury-Da-gt-Dy. Clauses (b) validity of the lower bounds and "
-            "(c) tightness are variational / asymptotic statements about a lax.while_loop fixed point and are NOT covered.",
-            BASE_NOTE + " Only the coherence clause is decided; G6 (variational bounds) would have to be assumed for (b).", "DESIGN §6-C17, §11"),
+    "C16": ("Moment matching proved from first principles (kernel moments as Gaussian integrals of products, axiom G1): RBF and squared-"
+            "exponential feature models -- unit-height read-out, condition_on_x, expected moments, cross terms, marginal (wf_pdf), "
+            "conditional transformation (= Gaussian conditional of the moment-matched joint) and the joint's mean / covariance blocks, R "
+            "generic or 1 (Sherman-Morrison and rank-one determinant ghost steps for the squared-exponential kernels); heteroscedastic exp, "
+            "cosh-1, step and rectified-linear links -- E[link(h)] (Gaussian mgf; truncated-measure contracts under vmap), moments, cross "
+            "terms, marginal, and for exp / cosh-1 also conditional and joint blocks. NOT covered: precision / log-determinant of the "
+            "moment-matched joint (inverse of a block matrix is opaque), conditional / joint transformations of the step and ReLU links.",
+            BASE_NOTE + " G1, G2, G4 assumed; positive definiteness of moment-matched covariances is a precondition.", "DESIGN §6-C16, §11"),
+    "C17": ("(a) coherent p(y|x): for the four links condition_on_x(x) has mean Mx+b, covariance AA' + A_k diag(link(Wx+w0)) A_k', and its "
+            "precision / log-determinant ARE the inverse / log-determinant of that covariance in the regime Da = Dy (Lean det_gram_diag); in "
+            "the regime Da > Dy the same obligations fail with replayable inputs = open known finding. (b) exp and cosh-1 links: k_func and "
+            "_lower_bound_integrals are proved to be the expectations of the Jaakkola-Jordan / cosh surrogates for an ARBITRARY positive "
+            "variational parameter, and integrate_log_conditional_y is proved to be their assembly (vmap modelled, lax.while_loop replaced by "
+            "its contract); step link: get_lb_log_det and the per-unit quadratic term are proved EQUAL to the exact expectations (conditional "
+            "law of a Gaussian pair + truncated moments). That the surrogates bound the true integrands (G6) is assumed. NOT covered: ReLU "
+            "lower bound, clause (c) tightness (asymptotic statement).",
+            BASE_NOTE + " G1-G4, G6 assumed where named.", "DESIGN §6-C17, §11"),
     "C18": ("Decides the contract-expressible part: the REAL registered flatten/unflatten lambdas (captured by substituting "
             "jax.tree_util.register_pytree_node) round-trip every factor / measure / density / conditional class in every cache state with "
             "all attributes proved equal; every pytree child is an array or None (the structural precondition of jit/vmap/scan; open known "
